@@ -288,6 +288,13 @@ def predicate(f, io):
         return False, "unknown api"
     if op == "K":
         return (io[0] == "err"), "a key / certificate of the other type was accepted (%s)" % f[2]
+    if op == "PF":
+        # structural forgery without the password: refused, or exactly the owner's key and certificate
+        if io[0] == "diff":
+            return False, "a PKCS#12 container rebuilt without the password (%s) decodes to a different key or certificate" % f[3]
+        if f[3] == "asis" and io[0] != "same":
+            return False, "the untouched PKCS#12 container does not decode to its key and certificate (%s)" % io[0]
+        return (io[0] in ("err", "same")), "PKCS#12 forgery case did not return: " + " ".join(io)
     if op == "PC":
         if io[0] == "diff":
             return False, "a single-byte corruption of the PKCS#12 container decodes to a different key or certificate"
